@@ -241,6 +241,8 @@ class Scrollable(WidgetDecoration[WrappedWidget]):
         if canv_cols <= maxcol and canv_rows <= maxrow:
             # Canvas is small enough to fit without trimming: nothing is scrolled out, reset the position
             self._adjust_trim_top(canv, size)
+            # everything is in view: the original widget gets the keys whenever it can use them
+            self._forward_keypress = canv.cursor is not None or ow.selectable()
             return canv
 
         self._adjust_trim_top(canv, size)
